@@ -1,6 +1,7 @@
 //! uec-harness: correspondence harness between /repo's crates and the Lean models.
 mod driver;
 mod fam_gen;
+mod fam_generation;
 mod fam_sel;
 mod fam_stack;
 mod prims;
@@ -42,6 +43,7 @@ fn main() {
         "stack" => fam_stack::run(&cfg),
         "sel" => fam_sel::run(&cfg),
         "gen" => fam_gen::run(&cfg),
+        "generation" => fam_generation::run(&cfg),
         f => { eprintln!("unknown family {f}"); std::process::exit(2) }
     };
     let js = serde_json::to_string_pretty(&rep.to_json()).unwrap();
